@@ -99,9 +99,12 @@ var Scalars = []Scalar{
 	{Name: "sfixed32", WT: refwire.Fixed32, Bits32: true, Norm: sx32,
 		Enc:  func(e *csproto.Encoder, tag int, u uint64) { e.EncodeFixed32(tag, uint32(int32(u))) },
 		Size: func(u uint64) int { return 4 },
-		Dec:  func(d *csproto.Decoder) (uint64, error) { v, err := d.DecodeFixed32(); return uint64(int64(int32(v))), err },
-		Ref:  func(b []byte, u uint64) []byte { return refwire.AppendFixed32(b, uint32(u)) },
-		PW:   func(b []byte, u uint64) []byte { return protowire.AppendFixed32(b, uint32(u)) }},
+		Dec: func(d *csproto.Decoder) (uint64, error) {
+			v, err := d.DecodeFixed32()
+			return uint64(int64(int32(v))), err
+		},
+		Ref: func(b []byte, u uint64) []byte { return refwire.AppendFixed32(b, uint32(u)) },
+		PW:  func(b []byte, u uint64) []byte { return protowire.AppendFixed32(b, uint32(u)) }},
 	{Name: "sfixed64", WT: refwire.Fixed64, Norm: id64,
 		Enc:  func(e *csproto.Encoder, tag int, u uint64) { e.EncodeFixed64(tag, uint64(int64(u))) },
 		Size: func(u uint64) int { return 8 },
